@@ -120,3 +120,24 @@ def relayout(rng, a, kind=None):
         view[...] = a
         return view, kind
     return np.ascontiguousarray(a), 'C'
+
+
+def present(rng, x, dtypes=('int', 'float32'), p_plain=.7):
+    """A different *presentation* of a signal: returns (array_to_pass, canonical_float64_values, tag).
+    The values are first made exactly representable in the target dtype, so the canonical float64 copy holds exactly
+    the numbers the routine sees; layout variants are strided views into a larger buffer."""
+    r = rng.random()
+    x = np.asarray(x)
+    if r < p_plain:
+        return x, np.asarray(x, dtype=float), 'plain'
+    kinds = list(dtypes) + ['strided']
+    kind = kinds[int(rng.integers(len(kinds)))]
+    if kind == 'int':
+        sc = max(np.abs(x).max(), 1e-12)
+        xi = np.round(np.asarray(x, dtype=float) / sc * float(pick(rng, [40, 1000]))).astype(pick(rng, [np.int64, np.int32, np.int16]))
+        return xi, xi.astype(float), 'int'
+    if kind == 'float32':
+        x32 = np.asarray(x, dtype=np.float32)
+        return x32, x32.astype(float), 'float32'
+    xs, _ = relayout(rng, np.asarray(x), 'strided')
+    return xs, np.asarray(x, dtype=float), 'strided'
